@@ -66,7 +66,7 @@ def _mmd_near_zero_distance(P, A, ovo, eps):
         d = p - q
         d2 = float(d @ A @ d)
         S = float((np.abs(p) + np.abs(q)) @ absA @ (np.abs(p) + np.abs(q)))
-        if d2 < 1e-6 * S:
+        if abs(d2) < 1e-6 * S:      # near zero on either side; a clearly negative value (indefinite kernel) is a smooth region: the term is 0
             return True
     return False
 
